@@ -21,15 +21,70 @@ Open Scope string_scope.
 """
 
 
+class _TransMap:
+    """a UidMap view that first translates the identities of the cloned tree back to the original ones"""
+
+    def __init__(self, um, inv):
+        self.um, self.inv = um, inv
+
+    def __call__(self, u):
+        if u not in self.inv:
+            raise KeyError(u)
+        return self.um(self.inv[u])
+
+    def coq(self, u):
+        return f"{self(u)}%N"
+
+
+def clone_with_inverse(nd):
+    """export compiles a CLONE of the tree: every column identity is re-numbered, and the identities handed
+    out by alias() are merged with the ones of the columns below.  Returns (clone, inverse) where inverse maps an
+    identity of the clone to the identity the original tree uses for that column at its outermost point
+    (alias-new identity if there is one, else the defining one), or None if the tree shares a node object."""
+    from pydiverse.transform._internal.backend.table_impl import TableImpl
+    from pydiverse.transform._internal.tree import verbs as V
+    nodes = list(nd.iter_subtree_preorder())
+    if len({id(x) for x in nodes}) != len(nodes):
+        return None
+    cl, nd_map, umap = nd._clone()
+    fwd, inv = {}, {}
+    for orig in reversed(nodes):                 # descendants first
+        c = nd_map.get(orig)
+        if c is None:
+            return None
+        if isinstance(orig, TableImpl):
+            for name, col in orig.cols.items():
+                fwd[col._uuid] = c.cols[name]._uuid
+                inv[fwd[col._uuid]] = col._uuid
+        elif isinstance(orig, (V.Mutate, V.Summarize)):
+            for u, cu in zip(orig.uuids, c.uuids, strict=True):
+                fwd[u] = cu
+                inv[cu] = u
+        elif isinstance(orig, V.Alias) and orig.uuid_map is not None:
+            for old, new in orig.uuid_map.items():
+                if old in fwd:
+                    fwd[new] = fwd[old]
+                    inv[fwd[new]] = new
+    for k, v in umap.items():
+        if fwd.get(k) != v:
+            return None
+    return cl, inv
+
+
 def real_compiled(tbl, um: ser.UidMap):
     """(query, labels, scope) of the real compiler as Gallina terms; raises on anything unexpected."""
     from pydiverse.transform._internal.backend.sql import SqlImpl
     from pydiverse.transform._internal.pipe.cache import Cache
     from pydiverse.transform._internal.tree import verbs as V
-    nd = tbl._ast
     backend = tbl._cache.backend
     if not issubclass(backend, SqlImpl):
         return None
+    ci = clone_with_inverse(tbl._ast)
+    if ci is None:
+        return None
+    nd, inv = ci
+    scope_um = um
+    um = _TransMap(um, inv)
     final_select = Cache.from_ast(nd).selected_cols()
     # the select lists of the two operands of every union, in the order the unions are built: compile_query is
     # wrapped to remember the select list of the statement it returns, sqlalchemy.union / union_all to log them
@@ -75,7 +130,7 @@ def real_compiled(tbl, um: ser.UidMap):
              + ";\n   q_order := [" + "; ".join(ser.order_to_coq(o, um) for o in q.order_by) + "]; q_limit := " + lim
              + f"; q_offset := ({off})%Z; q_summ := {'true' if q.is_summarized else 'false'} |}}")
     labels = "[" + "; ".join(f"({um.coq(u)}, {ser.str_to_coq(sqa_expr[u].name)})" for u in q.select) + "]"
-    scope = ul(tbl._cache.cols.keys())
+    scope = "[" + "; ".join(scope_um.coq(u) for u in tbl._cache.cols.keys()) + "]"
     return query, labels, scope, "[" + "; ".join(ul(x) for x in log) + "]"
 
 
@@ -138,9 +193,13 @@ def real_polars(tbl, um: ser.UidMap):
     """(select, partition_by, name_in_df, schema) of the real Polars compile_ast as Gallina terms"""
     from pydiverse.transform._internal.backend import polars as P
     from pydiverse.transform._internal.tree import verbs as V
-    nd = tbl._ast
     if not issubclass(tbl._cache.backend, P.PolarsImpl):
         return None
+    ci = clone_with_inverse(tbl._ast)
+    if ci is None:
+        return None
+    nd, inv = ci
+    um = _TransMap(um, inv)
     lf, name_in_df, select, partition_by = P.compile_ast(nd)
 
     def ul(us):
